@@ -24,8 +24,8 @@ reg("C14", "non-conditional simulations follow their model; basic generators hav
          "distinct = distinct (simulator, support, variables, structure, anisotropy, direction, sill class, ...) signatures",
     level="exploration",
     require=dict(distinct=30,
-                 oracles=dict(quick={"variance": 25, "covariance": 120, "mean": 30, "moment1": 10, "support": 10},
-                              thorough={"variance": 45, "covariance": 220, "mean": 60, "moment1": 20, "support": 20})),
+                 oracles=dict(quick={"variance": 25, "covariance": 120, "mean": 30, "moment1": 8, "support": 8},
+                              thorough={"variance": 45, "covariance": 220, "mean": 55, "moment1": 16, "support": 16})),
     assumptions=["Model::eval (pointwise covariance, including anisotropy and sill matrices) is the reference for the expected "
                  "statistics: C14 compares simulations with the model's own covariance function (C01/C03 cover that function)",
                  "fourth moments of the simulated fields are those of a Gaussian field (the turning-bands / spectral fields are sums of "
